@@ -138,12 +138,13 @@ pub fn case(x: &Xfer) -> CaseOut {
         // Known finding: force_key_update() is accepted again as soon as the previous keys were
         // discarded, even if no packet sent in the current key phase has been acknowledged (RFC
         // 9001 6.1 forbids that). After the peer initiated update N+1 and the local side then
-        // initiates N+2, the one-bit key phase of N+2 equals that of N, the peer still holds the
+        // initiates N+2 (the first, routine update after 10..1000 packets counts as one of them), the
+        // one-bit key phase of N+2 equals that of N, the peer still holds the
         // phase-N keys as "previous" and tries those: every packet fails authentication for good.
         {
             let probes: Vec<_> = w.conns.iter().map(|c| c.c.verif_probe()).collect();
             let updates: u64 = w.conns.iter().map(|c| c.app.stats.key_updates).sum();
-            if probes.iter().all(|p| p.state == 1) && updates >= 2 && probes.iter().any(|p| p.authentication_failures >= 5) {
+            if probes.iter().all(|p| p.state == 1) && updates >= 1 && probes.iter().any(|p| p.authentication_failures >= 5) {
                 return CaseOut::fail(
                     "c02/key-update-before-ack-in-current-phase-desync",
                     format!("peers lost key synchronisation after back-to-back key updates\n{}", describe()),
